@@ -288,9 +288,11 @@ example {R : Type} (rn : List Nat → Option (Num R)) :
   · intro x hx; simp at hx; subst hx; unfold plainU; decide
   · intro x hx; simp at hx; subst hx; unfold plainU; decide
 
-/-- stage 7 of `RenderParsePrint`: TREES of segment runs, `<if>`/`<elseif>`/`<else />` chains and
+/-- stages 7 + 8 of `RenderParsePrint`: TREES of segment runs, inline `{if case="e" true="T" false="F"}`
+tags (either value may be missing, not both; `T`, `F` runs of segments free of `"`; the tag shorter
+than 65536 units), `<if>`/`<elseif>`/`<else />` chains and
 `<loop [set="S"] value="V">` loops, nested in any order to any depth (`GTs`): loops inside loops, ifs
-inside loops, loops inside if branches; loop variables in `{var:}`, `{raw:}`, `{math:}` operands,
+inside loops, loops inside if branches, inline ifs anywhere; loop variables in `{var:}`, `{raw:}`, `{math:}` operands,
 `case=` operands and in the `set=` of an inner loop; shadowing of an outer value name by an inner
 one.  For EVERY value, number reader, formatter and escape switch: parse + render = the documented
 expansion.  The exact class:
@@ -315,7 +317,12 @@ bindings: both pick the first entry whose name is the path's name); `evalExprs_e
 item, the items of the enclosing loops untouched at their levels: `ItemsOk`); `render_gt` /
 `render_gts` / `render_gtail`; `expand_gt` on the reference side.  Render fuel `rneedGTs` and
 reference fuel `eneedGTs` depend on the value (one unit per loop item, summed over nested loops).
-Not covered: `{svar:}`, inline `{if}`, `sort=`/`group=`. -/
+Inline if (Proofs/TmplIifParse.lean, TmplIifRender.lean): `next_at_iif`, `iifQuote_parts` (the search for the
+case's closing quote across its `{var:}` operands), `stepIif_print`, the values parsed as segments
+in a state inside an inline container (`stAtC`), `iifAttrs_chain`, `closeIif_gen` with `iif_facts`
+(start id = number of sub tags of the first value; every sub tag inside the value it is rendered
+with), `renderIif_env` (three-valued case decision `case_val_env`, sub tags selected by the start
+ids).  Not covered: `{svar:}`, `sort=`/`group=`. -/
 theorem render_parse_print_loops {R : Type} [RealLike R] (cx : RCtx R) (sx : SpecCtx R)
     (cfg : ScanCfg R) (bs : GTs) (hg : cx.guardIndexRead = true) (same : SameCtx cx sx)
     (hrn : cfg.readNum = cx.readNum)
@@ -397,6 +404,41 @@ example {R : Type} : treeL.ok ∧ treeL.pathV (rdX (R := R)) [] ∧ treeL.caseV 
   · simp only [treeL, GTs.caseV, GT.caseV, GTail.caseV, and_true]
     refine Or.inr ?_
     intro items h; rw [scanCL] at h; cases h; simp
+
+/-- non-vacuity with an inline if inside a loop over the root:
+`<loop value="v">{if case="{var:v} == 1" true="{var:v}" false="no"}</loop>` -/
+def caseI : List Nat := [123, 118, 97, 114, 58, 118, 125, 32, 61, 61, 32, 49]
+def treeI : GTs :=
+  .cons (.loop [] [118] (.cons (.iif caseI (some [.var [118]]) (some [.text [110, 111]])) .nil)) .nil
+theorem scanCI {R : Type} : parseTop ({ readNum := rdX } : ScanCfg R) (caseI ++ [34]) 0 caseI.length =
+    .ok [(.var ⟨5, 1, 0, 0⟩, .equal), (.num (.nat 1), .noOp)] := by
+  with_unfolding_all rfl
+example {R : Type} : treeI.ok ∧ treeI.pathV (rdX (R := R)) [] ∧ treeI.caseV (rdX (R := R)) := by
+  have hpv : PathOkV [[118]] [118] :=
+    ⟨[118], [], by simp [brk], by simp, (by intro x hx; simp at hx; subst hx; decide), (by intro k hk; cases hk),
+      fun V hV _ => by simp at hV; exact hV.symm⟩
+  refine ⟨?_, ?_, ?_⟩
+  · simp only [treeI, GTs.ok, GT.ok, and_true]
+    refine ⟨⟨(by intro x hx; cases hx), (by intro x hx; cases hx), (by intro x hx; cases hx), (by decide),
+      plain1 118 (by decide), (by decide), (by decide), (by decide)⟩, ?_, by decide, ?_, ?_, Or.inl (by simp), by decide⟩
+    · exact ⟨[([], [118])], [32, 61, 61, 32, 49], by simp [caseI, printMP],
+        (by intro x hx; simp at hx; rcases hx with h | h | h | h <;> subst h <;> (unfold plainU; decide)),
+        (by intro tp htp; simp at htp; subst htp; exact ⟨(by intro x hx; cases hx), plain1 118 (by decide)⟩)⟩
+    · intro l hl; cases hl
+      exact ⟨(by intro s hs; simp at hs; subst hs; exact ⟨plain1 118 (by decide), by simp, by simp⟩), (by decide)⟩
+    · intro l hl; cases hl
+      exact ⟨(by intro s hs; simp at hs; subst hs; intro x hx; simp at hx; rcases hx with h | h <;> subst h <;> (unfold plainU; decide)),
+        (by decide)⟩
+  · simp only [treeI, GTs.pathV, GT.pathV, and_true]
+    refine ⟨fun h => absurd rfl h, ⟨?_, by decide⟩, ?_, ?_⟩
+    · intro items h; rw [scanCI] at h; cases h
+      intro v hv; simp [itemsVars, operandVars] at hv; subst hv
+      exact hpv
+    · intro l hl; cases hl
+      intro s hs; simp at hs; subst hs; exact hpv
+    · intro l hl; cases hl
+      intro s hs; simp at hs; subst hs; trivial
+  · simp [treeI, GTs.caseV, GT.caseV]
 
 /-- side conditions under which the document determines the output (the generator of
 `checks/c02.py` produces exactly such templates) — informal list kept next to the statement:
